@@ -221,6 +221,23 @@ func streamLex(o *Out, r *rand.Rand, n int, thorough bool) {
 			}
 		}
 	}
+	// every error a grammar action raises itself (not the generated parser), on first left-hand expressions of every kind,
+	// behind earlier lines and with trailing text: the position must lie in the text
+	lhss := []string{"a", "a[0:1]", "a[1:]", "<-c", "{\"k\": 1}", "a.b", "a[0]", "*p", "(a)", "f()", "[1, 2]", "a[0:1][0]", "-a", "!a", "m[\"k\"]"}
+	for _, pre := range []string{"", "x = 1\n", "x = 1\n\n  ", "# c\n\ty = 2; "} {
+		for _, l := range lhss {
+			for _, tmpl := range []string{"%s, b =", "%s, b, c = <- d", "%s, b = ", "%s =", "%s, b, c = <-", "for %s, b, c in d { }", "%s, b = 1,", "%s, b <- 1", "var %s, b = 1"} {
+				items = append(items, item{"action-error", pre + fmt.Sprintf(tmpl, l) + "\nz = 3"}, item{"action-error", pre + fmt.Sprintf(tmpl, l)})
+			}
+		}
+		for _, body := range []string{"y = 2", "", "\ty = 2\n\tz = 3"} {
+			items = append(items, item{"action-error", pre + "switch x {\ncase 1:\n" + body + "\ndefault:\n" + body + "\ndefault:\n" + body + "\n}"},
+				item{"action-error", pre + "switch x {\ndefault:\n" + body + "\ndefault:\n}"},
+				item{"action-error", pre + "if a {\n" + body + "\n} else {\n" + body + "\n} else {\n" + body + "\n}"},
+				item{"action-error", pre + "a = -0x\n" + body}, item{"action-error", pre + "a = 1e\n" + body}, item{"action-error", pre + "f(a,\n" + body},
+				item{"action-error", pre + "make(type\n" + body}, item{"action-error", pre + "func(a, ) { }"}, item{"action-error", pre + "{\"k\": 1, ,}"})
+		}
+	}
 	dumps := make([]string, len(items))
 	for i, it := range items {
 		src := it.src
